@@ -45,6 +45,13 @@ def run(ctx, rep):
         res = sy.eval_body(fx.bodies[p])
         good = len(res) == 1 and res[0][1][1][0] == "adt" and dict(res[0][1][1][3]).get("kind") == ("in", "kind")
         rep.check("C11.2", "C11.2/from-kind", good, loc=F.short_file(fx.bodies[p]["sp"]), found=[S.tstr(o[1]) for s, o in res], expected="CacheError{kind, source: None}")
+    # machine-checked premises of the prefix argument: the writer emits exactly `string_bytes` string bytes last, and every
+    # earlier section with the count the header declares (shared with C09.2/C09.3)
+    wv = CF.WriterView(fx, rep, "C11.3")
+    if wv.ok:
+        seqs = CF.check_emission(fx, rep, "C11.3", wv)
+        if seqs:
+            CF.check_sections(fx, rep, "C11.3", wv, seqs)
     # control: a parse with the version check removed is a different structure (comparator not blind)
     ref = CF.ref_parse(fx)
     pp = A.method(fx, A.CACHE, "parse")
